@@ -13,14 +13,17 @@ Local Open Scope Z_scope.
 
 Section Streams.
 Context (ig : E.integ).
-Context (enc_spo : term -> Z -> pbval str -> TermEncoder SN -> outcome (list (pbval str)) * TermEncoder SN * pbval str).
-Context (enc_graph : term -> pbval str -> TermEncoder SN -> outcome (list (pbval str)) * TermEncoder SN * pbval str).
+Context {T : Type} (inj : term -> T) (teqb : T -> T -> bool).
+Context (H_teqb : forall a b, teqb (inj a) (inj b) = term_eqb a b).
+Context (enc_spo : T -> Z -> pbval str -> TermEncoder SN -> outcome (list (pbval str)) * TermEncoder SN * pbval str).
+Context (enc_graph : T -> pbval str -> TermEncoder SN -> outcome (list (pbval str)) * TermEncoder SN * pbval str).
 Context (put : Z -> wterm -> pbval str -> pbval str).
-Context (H_spo : sim_spo ig enc_spo put) (H_graph : sim_graph ig enc_graph put).
+Context (H_spo : sim_spo ig inj enc_spo put) (H_graph : sim_graph ig inj enc_graph put).
 
 Notation rmsg := (rmsg put).
 Notation Rf := (Rf rmsg).
-Notation GStream := (@Stream SN term).
+Notation GStream := (@Stream SN T).
+Notation rlist := (rlist inj).
 
 Definition tag_of_class (c : stream_class) : Stream_cls :=
   match c with TripleStream => K_TripleStream | QuadStream => K_QuadStream | GraphStream => K_GraphStream end.
@@ -143,12 +146,12 @@ Proof.
     rewrite Hsame in HF. exact HF.
 Qed.
 
-Notation gen_triple := (Stream_triple SN term_eqb enc_spo).
-Notation gen_quad := (Stream_quad SN term_eqb enc_spo enc_graph).
+Notation gen_triple := (Stream_triple SN teqb enc_spo).
+Notation gen_quad := (Stream_quad SN teqb enc_spo enc_graph).
 
 (* TripleStream.triple (GraphStream inherits it) *)
 Theorem source_stream_triple_is_model (terms : list term) g m : Rs g m -> st_class m <> QuadStream ->
-  match gen_triple terms g, stream_triple terms m with
+  match gen_triple (map inj terms) g, stream_triple terms m with
   | (Val fr, g', _), (m', Ok mfr) => fr = option_map (frame_msg rmsg) mfr /\ Rs g' m'
   | (Exn _, g', _), (m', Err _) => Rs g' m'
   | _, _ => False
@@ -160,8 +163,8 @@ Proof.
     (rewrite (tie_ensure_usable g m HR); unfold refuse;
      destruct (st_failed m) eqn:Ef; [exact HR|];
      destruct (He eq_refl) as [HRt Hrep]; rewrite Hrep, Hi;
-     pose proof (source_encode_triple_is_model ig enc_spo put H_spo terms (st_rep m) (Stream_encoder SN g) (st_enc m) HRt) as H;
-     destruct (encode_triple SN term_eqb enc_spo terms (Stream_encoder SN g) (rlist (st_rep m))) as [[[[rows|e] terms'] ge'] rl'];
+     pose proof (source_encode_triple_is_model ig inj teqb H_teqb enc_spo put H_spo terms (st_rep m) (Stream_encoder SN g) (st_enc m) HRt) as H;
+     destruct (encode_triple SN teqb enc_spo (map inj terms) (Stream_encoder SN g) (rlist (st_rep m))) as [[[[rows|e] terms'] ge'] rl'];
      destruct (E.encode_triple ig terms (st_enc m) (st_rep m)) as [[[t' rp'] mrows]|e']; try contradiction;
      [ destruct H as (-> & HRt' & -> & _); ssimpl;
        pose proof (Rf_extend rmsg _ _ mrows Hfl) as Hext;
@@ -176,7 +179,7 @@ Qed.
 
 (* QuadStream.quad *)
 Theorem source_stream_quad_is_model (terms : list term) g m : Rs g m -> st_class m = QuadStream ->
-  match gen_quad terms g, stream_quad terms m with
+  match gen_quad (map inj terms) g, stream_quad terms m with
   | (Val fr, g', _), (m', Ok mfr) => fr = option_map (frame_msg rmsg) mfr /\ Rs g' m'
   | (Exn _, g', _), (m', Err _) => Rs g' m'
   | _, _ => False
@@ -187,8 +190,8 @@ Proof.
   rewrite (tie_ensure_usable g m HR). unfold refuse.
   destruct (st_failed m) eqn:Ef; [exact HR|].
   destruct (He eq_refl) as [HRt Hrep]. rewrite Hrep, Hi.
-  pose proof (source_encode_quad_is_model ig enc_spo enc_graph put H_spo H_graph terms (st_rep m) (Stream_encoder SN g) (st_enc m) HRt) as H.
-  destruct (encode_quad SN term_eqb enc_spo enc_graph terms (Stream_encoder SN g) (rlist (st_rep m))) as [[[[rows|e] terms'] ge'] rl'];
+  pose proof (source_encode_quad_is_model ig inj teqb H_teqb enc_spo enc_graph put H_spo H_graph terms (st_rep m) (Stream_encoder SN g) (st_enc m) HRt) as H.
+  destruct (encode_quad SN teqb enc_spo enc_graph (map inj terms) (Stream_encoder SN g) (rlist (st_rep m))) as [[[[rows|e] terms'] ge'] rl'];
     destruct (E.encode_quad ig terms (st_enc m) (st_rep m)) as [[[t' rp'] mrows]|e']; try contradiction.
   - destruct H as (-> & HRt' & -> & _). ssimpl.
     pose proof (Rf_extend rmsg _ _ mrows Hfl) as Hext.
@@ -215,12 +218,12 @@ Proof. induction a as [|[|f|e] a IH]; cbn; [reflexivity | exact IH | now rewrite
 Lemma emitted_emit_opt o : map (frame_msg rmsg) (emitted (emit_opt o)) = match option_map (frame_msg rmsg) o with Some f => [f] | None => [] end.
 Proof. destruct o; reflexivity. Qed.
 
-Notation gen_graph := (Stream_graph SN term_eqb enc_spo enc_graph).
+Notation gen_graph := (Stream_graph SN teqb enc_spo enc_graph).
 
 (* the frames it yields are the model's Emit events, in order; it ends normally exactly when the model does; the stream
    it leaves is the model's *)
 Theorem source_stream_graph_is_model (gid : term) (triples : list (list term)) g m : Rs g m -> st_class m = GraphStream ->
-  match gen_graph gid triples g, stream_graph gid triples m with
+  match gen_graph (inj gid) (map (map inj) triples) g, stream_graph gid triples m with
   | (r, g', _, ys), (m', evs, ok) =>
       Rs g' m' /\ ys = map (frame_msg rmsg) (emitted evs) /\ (match r with Val _ => ok = true | Exn _ => ok = false end)
   end.
@@ -236,7 +239,7 @@ Proof.
   pose proof (H_graph gid (PMsg "RdfGraphStart" []) ge0 (E.start_statement (st_enc m)) H0
                 ltac:(exists "RdfGraphStart"%string, (@None wterm), (@None wterm), (@None wterm); split; [right; right; left; reflexivity | reflexivity])) as Hg.
   cbn [Stream_encoder set_Stream_encoder]. norm.
-  destruct (enc_graph gid (PMsg "RdfGraphStart" []) ge0) as [[[grows|eg] ge1] gstart];
+  destruct (enc_graph (inj gid) (PMsg "RdfGraphStart" []) ge0) as [[[grows|eg] ge1] gstart];
     destruct (E.encode_graph_term ig gid (E.start_statement (st_enc m))) as [[[t1 mrows] w]|e'] eqn:Egt; try contradiction; cbn [bind]; cbv beta iota zeta.
   2:{ (* the graph name is refused *)
       split; [|split; reflexivity].
@@ -257,19 +260,19 @@ Proof.
     apply (Rf_extend rmsg). exact Hfl. }
   assert (Hc1 : st_class m1 = GraphStream) by exact Hc.
   (* the loop over the triples *)
-  match goal with |- context [?f triples (g1, triples, @nil (pbval str))] => set (loop := f) end.
-  assert (Hloop : forall (xs : list (list term)) (gx : GStream) (mx : stream) (gr : list (list term)) (ys : list (pbval str)),
+  match goal with |- context [?f (map (map inj) triples) (g1, map (map inj) triples, @nil (pbval str))] => set (loop := f) end.
+  assert (Hloop : forall (xs : list (list term)) (gx : GStream) (mx : stream) (gr : list (list T)) (ys : list (pbval str)),
              Rs gx mx -> st_class mx = GraphStream ->
-             match loop xs (gx, gr, ys), graph_triples xs mx with
+             match loop (map (map inj) xs) (gx, gr, ys), graph_triples xs mx with
              | LContinue (g', _, ys'), (m', evs, true) => Rs g' m' /\ ys' = ys ++ map (frame_msg rmsg) (emitted evs) /\ st_class m' = GraphStream
              | LRaise _ (g', _, ys'), (m', evs, false) => Rs g' m' /\ ys' = ys ++ map (frame_msg rmsg) (emitted evs)
              | _, _ => False
              end).
   { induction xs as [|tr xs IH]; intros gx mx gr ys HRx Hcx.
     - cbn. split; [exact HRx|]. split; [rewrite app_nil_r; reflexivity | exact Hcx].
-    - cbn [graph_triples]. unfold loop at 1. fold loop. cbv beta iota.
+    - cbn [graph_triples map]. unfold loop at 1. fold loop. cbv beta iota.
       pose proof (source_stream_triple_is_model tr gx mx HRx ltac:(rewrite Hcx; discriminate)) as Hstep.
-      destruct (gen_triple tr gx) as [[[fr|e] gx'] tr'];
+      destruct (gen_triple (map inj tr) gx) as [[[fr|e] gx'] tr'];
         destruct (stream_triple tr mx) as [mx' [mfr|e']] eqn:Est; try contradiction.
       + destruct Hstep as [-> HRx'].
         assert (Hcx' : st_class mx' = GraphStream).
@@ -278,17 +281,17 @@ Proof.
           destruct (frame_from_bounds (flow_extend (st_flow mx) rws)) as [fl fr0]. injection Est as <- _. exact Hcx. }
         destruct mfr as [f|]; cbn [option_map].
         * specialize (IH gx' mx' gr (ys ++ [frame_msg rmsg f]) HRx' Hcx').
-          destruct (loop xs (gx', gr, ys ++ [frame_msg rmsg f])) as [[[g' gr'] ys']|rv [[g' gr'] ys']|e [[g' gr'] ys']];
+          destruct (loop (map (map inj) xs) (gx', gr, ys ++ [frame_msg rmsg f])) as [[[g' gr'] ys']|rv [[g' gr'] ys']|e [[g' gr'] ys']];
             destruct (graph_triples xs mx') as [[m' evs] ok]; destruct ok; try contradiction.
           -- destruct IH as (HR' & -> & Hc'). split; [exact HR'|]. split; [|exact Hc'].
              cbn [emit_opt app emitted map]. rewrite <- app_assoc. reflexivity.
           -- destruct IH as (HR' & ->). split; [exact HR'|]. cbn [emit_opt app emitted map]. rewrite <- app_assoc. reflexivity.
         * specialize (IH gx' mx' gr ys HRx' Hcx').
-          destruct (loop xs (gx', gr, ys)) as [[[g' gr'] ys']|rv [[g' gr'] ys']|e [[g' gr'] ys']];
+          destruct (loop (map (map inj) xs) (gx', gr, ys)) as [[[g' gr'] ys']|rv [[g' gr'] ys']|e [[g' gr'] ys']];
             destruct (graph_triples xs mx') as [[m' evs] ok]; destruct ok; try contradiction; exact IH.
       + cbn. split; [exact Hstep | rewrite app_nil_r; reflexivity]. }
-  specialize (Hloop triples g1 m1 triples [] HR1 Hc1).
-  destruct (loop triples (g1, triples, [])) as [[[g2 gr2] ys2]|rv [[g2 gr2] ys2]|e [[g2 gr2] ys2]];
+  specialize (Hloop triples g1 m1 (map (map inj) triples) [] HR1 Hc1).
+  destruct (loop (map (map inj) triples) (g1, map (map inj) triples, [])) as [[[g2 gr2] ys2]|rv [[g2 gr2] ys2]|e [[g2 gr2] ys2]];
     destruct (graph_triples triples m1) as [[m2 evs] ok]; destruct ok; try contradiction.
   - (* all triples accepted: the graph end, then a frame if the flow is full *)
     destruct Hloop as (HR2 & -> & Hc2). cbn [app].
@@ -313,16 +316,16 @@ Qed.
 (* ------------------------------------------------------------------ construction *)
 Definition ctor (c : stream_class) :=
   match c with
-  | TripleStream => @TripleStream___init__ SN term
-  | QuadStream => @QuadStream___init__ SN term
-  | GraphStream => @GraphStream___init__ SN term
+  | TripleStream => @TripleStream___init__ SN T
+  | QuadStream => @QuadStream___init__ SN T
+  | GraphStream => @GraphStream___init__ SN T
   end.
 
 Lemma finish_ok (c : stream_class) genc gopts gflow (o : soptions) (fl : flow) :
   Rt genc (E.tenc_init (so_maxn o) (so_maxp o) (so_maxd o)) -> Ro gopts o -> Rf gflow fl ->
   match (match StreamTypes___init__ (Z.of_N (physical_type c)) (FrameFlow_logical_type gflow) with
          | Exn e => Exn e
-         | Val st => Val (mk_Stream SN (tag_of_class c) genc gopts gflow (tuple_repeat (None : option term) 4) false false st)
+         | Val st => Val (mk_Stream SN (tag_of_class c) genc gopts gflow (tuple_repeat (None : option T) 4) false false st)
          end),
         (if negb (type_compat (physical_type c) (fl_logical fl)) then Err JAssertion else
          Ok {| st_class := c; st_integ := ig; st_opts := o;
